@@ -31,33 +31,33 @@ def ParenShape (e : Spec.CExpr) (ts : List Token) : Prop :=
 /-- the lexer follows every grammar function at fuel `f`, at every filter depth -/
 structure LexAll (f : Nat) : Prop where
   term : ∀ D : Int, 0 < D → ∀ inp e r, Spec.term f inp = some (e, r) → Spec.skipS inp = inp →
-    nkExpr e = true → TFollow r → FL D inp (TermShape e) r
+    TFollow r → FL D inp (TermShape e) r
   basic : ∀ D : Int, 0 < D → ∀ inp e r, Spec.basic f inp = some (e, r) → Spec.skipS inp = inp →
-    nkExpr e = true → BFollow r → FL D inp (BasicShape e) r
+    BFollow r → FL D inp (BasicShape e) r
   logicalAnd : ∀ D : Int, 0 < D → ∀ inp e r, Spec.logicalAnd f inp = some (e, r) → Spec.skipS inp = inp →
-    nkExpr e = true → BFollow r → FL D inp (AndShape e) r
+    BFollow r → FL D inp (AndShape e) r
   logicalOr : ∀ D : Int, 0 < D → ∀ inp e r, Spec.logicalOr f inp = some (e, r) → Spec.skipS inp = inp →
-    nkExpr e = true → BFollow r → FL D inp (OrShape e) r
+    BFollow r → FL D inp (OrShape e) r
   parenExpr : ∀ D : Int, 0 < D → ∀ t e r, Spec.parenExpr f ('(' :: t) = some (e, r) →
-    nkExpr e = true → FL D ('(' :: t) (ParenShape e) r
+    FL D ('(' :: t) (ParenShape e) r
   argument : ∀ D : Int, 0 < D → ∀ inp e r, Spec.argument f inp = some (e, r) → Spec.skipS inp = inp →
-    nkExpr e = true → AFollow r → FL D inp (ArgShape e) r
+    AFollow r → FL D inp (ArgShape e) r
   moreArgs : ∀ D : Int, 0 < D → ∀ inp as r, Spec.moreArgs f inp = some (as, r) →
-    nkArgs as = true → (∃ u, Spec.skipS r = ')' :: u) → FLp D inp (MoreArgsShape as) r
+    (∃ u, Spec.skipS r = ')' :: u) → FLp D inp (MoreArgsShape as) r
   selector : ∀ D : Int, 0 ≤ D → ∀ inp sel rest, Spec.selector f inp = some (sel, rest) → Spec.skipS inp = inp →
-    nkSel sel = true → Cs.Follow rest → SL D inp (FSelShape sel) rest
+    Cs.Follow rest → SL D inp (FSelShape sel) rest
   moreSelectors : ∀ D : Int, 0 ≤ D → ∀ inp ss rest r5, Spec.moreSelectors f inp = some (ss, rest) →
-    nkSels ss = true → Spec.skipS rest = ']' :: r5 → ML D inp (FMoreShape ss) rest
+    Spec.skipS rest = ']' :: r5 → ML D inp (FMoreShape ss) rest
   bracketed : ∀ D : Int, 0 ≤ D → ∀ r sels fl rest, Spec.bracketed f ('[' :: r) = some (sels, fl, rest) →
-    nkSels sels = true → ∀ (l : Lexer) (pre : List Char) (toks : List Token) (br : List (Char × Nat)) (i : Nat),
+    ∀ (l : Lexer) (pre : List Char) (toks : List Token) (br : List (Char × Nat)) (i : Nat),
     FSt D l pre [] r toks (('[', i) :: br) →
     ∃ l' pre' ts k, Reach .bracketed l .segment l' ∧
       FSt D l' pre' [] rest (⟨.rbracket, [']'], k⟩ :: (ts.reverse ++ toks)) br ∧ FSelsShape sels ts
-  segment : ∀ D : Int, 0 ≤ D → ∀ inp seg rest, Spec.segment f inp = some (seg, rest) → nkSegs [seg] = true →
+  segment : ∀ D : Int, 0 ≤ D → ∀ inp seg rest, Spec.segment f inp = some (seg, rest) →
     ∀ (l : Lexer) (pre : List Char) (toks : List Token) (br : List (Char × Nat)), FSt D l pre [] inp toks br →
     ∃ lm sm l' pre' ts, Impl.step .segment l = .ok (lm, some sm) ∧ Reach sm lm .segment l' ∧
       FSt D l' pre' [] rest (ts.reverse ++ toks) br ∧ FSegShape seg ts
-  segments : ∀ D : Int, 0 ≤ D → ∀ inp segs rest, Spec.segments f inp = some (segs, rest) → nkSegs segs = true →
+  segments : ∀ D : Int, 0 ≤ D → ∀ inp segs rest, Spec.segments f inp = some (segs, rest) →
     ∀ (l : Lexer) (pre : List Char) (toks : List Token) (br : List (Char × Nat)), FSt D l pre [] inp toks br →
     ∃ l' pre' ts, Reach .segment l .segment l' ∧ FSt D l' pre' [] rest (ts.reverse ++ toks) br ∧
       FSegsShape segs ts
@@ -72,7 +72,7 @@ theorem notLit_of {e : Spec.CExpr} (h : ∀ v, e ≠ .lit v) : notLit e = true :
 /-- `name(`: a FUNCTION token; the parenthesis is pushed -/
 theorem run_function {D : Int} {s : LState} {l : Lexer} {inp t : List Char} {name : Str} {toks : List Token}
     {br : List (Char × Nat)} (hD : D ≠ 0) (hv : FV D s l inp toks br) (hin : Spec.skipS inp = inp)
-    (hfn : Spec.functionName inp = some (name, '(' :: t)) (hk : kwName name = false) :
+    (hfn : Spec.functionName inp = some (name, '(' :: t)) :
     ∃ l' k i, Reach s l .filter l' ∧ FV D .filter l' t (⟨.function, name, k⟩ :: toks) (('(', i) :: br) := by
   obtain ⟨e, c, rest, en, hc, _⟩ := functionName_inv hfn
   subst en
@@ -83,7 +83,7 @@ theorem run_function {D : Int} {s : LState} {l : Lexer} {inp t : List Char} {nam
     (Q := fun l' => ∃ pre' k i, FSt D l' pre' [] t (⟨.function, c :: rest, k⟩ :: toks) (('(', i) :: br))
     (fun l1 pre1 h1' => by
       have h1'' : FSt D l1 pre1 [] inp toks br := by rw [e]; exact h1'
-      obtain ⟨l', s1, hst⟩ := lexFilter_functionName h1'' hfn hk
+      obtain ⟨l', s1, hst⟩ := lexFilter_functionName h1'' hfn
       exact ⟨l', s1, _, _, _, hst⟩)
   exact ⟨l', k, i, r1, .of_filter hst⟩
 
@@ -113,7 +113,7 @@ theorem run_rparen {D : Int} {s : LState} {l : Lexer} {inp t : List Char} {toks 
 /-! ### term -/
 
 theorem step_term (ih : LexAll f) (D : Int) (hD : 0 < D) (inp : List Char) (e : Spec.CExpr) (r : List Char)
-    (h : Spec.term (f + 1) inp = some (e, r)) (hin : Spec.skipS inp = inp) (hnk : nkExpr e = true)
+    (h : Spec.term (f + 1) inp = some (e, r)) (hin : Spec.skipS inp = inp)
     (hf : TFollow r) : FL D inp (TermShape e) r := by
   have hD0 : D ≠ 0 := by omega
   cases term_inv h with
@@ -125,8 +125,7 @@ theorem step_term (ih : LexAll f) (D : Int) (hD : 0 < D) (inp : List Char) (e : 
       (fun l1 pre1 h1' => by
         obtain ⟨l', s1, hst⟩ := lexFilter_current h1'
         exact ⟨l', s1, _, _, hst⟩)
-    have hnk' : nkSegs segs = true := by simpa [nkExpr] using hnk
-    obtain ⟨l2, pre2, ts, r2, hst2, hsh⟩ := ih.segments D (by omega) t segs r hs hnk' l1 pre1 _ br hst
+    obtain ⟨l2, pre2, ts, r2, hst2, hsh⟩ := ih.segments D (by omega) t segs r hs l1 pre1 _ br hst
     exact ⟨.segment, l2, ⟨.current, ['@'], k⟩ :: ts, r1.trans r2, .of_segment (by simpa using hst2),
       .rel segs ts _ _ hsh⟩
   | root t segs e1 hs e2 =>
@@ -137,26 +136,22 @@ theorem step_term (ih : LexAll f) (D : Int) (hD : 0 < D) (inp : List Char) (e : 
       (fun l1 pre1 h1' => by
         obtain ⟨l', s1, hst⟩ := lexFilter_root h1'
         exact ⟨l', s1, _, _, hst⟩)
-    have hnk' : nkSegs segs = true := by simpa [nkExpr] using hnk
-    obtain ⟨l2, pre2, ts, r2, hst2, hsh⟩ := ih.segments D (by omega) t segs r hs hnk' l1 pre1 _ br hst
+    obtain ⟨l2, pre2, ts, r2, hst2, hsh⟩ := ih.segments D (by omega) t segs r hs l1 pre1 _ br hst
     exact ⟨.segment, l2, ⟨.root, ['$'], k⟩ :: ts, r1.trans r2, .of_segment (by simpa using hst2),
       .root segs ts _ _ hsh⟩
   | call0 name t hfn hcl e2 =>
     subst e2
-    have hk : kwName name = false := by simpa [nkExpr, nkArgs] using hnk
     intro s l toks br hv
-    obtain ⟨l1, k, i, r1, hv1⟩ := run_function hD0 hv hin hfn hk
+    obtain ⟨l1, k, i, r1, hv1⟩ := run_function hD0 hv hin hfn
     obtain ⟨l2, k2, r2, hv2⟩ := run_rparen hD0 hv1 hcl
     exact ⟨.filter, l2, [⟨.function, name, k⟩, ⟨.rparen, [')'], k2⟩], r1.trans r2, by simpa using hv2,
       .call name [] [] k _ k2 .nil⟩
   | call name t a as r2 r3 hfn hnc ha hm hcl e2 =>
     subst e2
-    have hnk' : kwName name = false ∧ nkExpr a = true ∧ nkArgs as = true := by
-      simpa [nkExpr, nkArgs] using hnk
     intro s l toks br hv
-    obtain ⟨l1, k, i, r1, hv1⟩ := run_function hD0 hv hin hfn hnk'.1
-    have b1 := (ih.argument D hD (Spec.skipS t) a r2 ha (Cs.skipS_idem t) hnk'.2.1 (moreArgs_follow hm hcl)).of_skipS
-    have b2 := ih.moreArgs D hD r2 as r3 hm hnk'.2.2 ⟨r, hcl⟩
+    obtain ⟨l1, k, i, r1, hv1⟩ := run_function hD0 hv hin hfn
+    have b1 := (ih.argument D hD (Spec.skipS t) a r2 ha (Cs.skipS_idem t) (moreArgs_follow hm hcl)).of_skipS
+    have b2 := ih.moreArgs D hD r2 as r3 hm ⟨r, hcl⟩
     obtain ⟨s2, l2, t1, r2', hv2, p1⟩ := b1 _ l1 _ _ hv1
     obtain ⟨s3, l3, t2, r3', hv3, p2⟩ := b2 _ l2 _ i br hv2
     obtain ⟨l4, k4, r4, hv4⟩ := run_rparen hD0 hv3 hcl
@@ -172,28 +167,27 @@ theorem step_term (ih : LexAll f) (D : Int) (hD : 0 < D) (inp : List Char) (e : 
 /-! ### function arguments -/
 
 theorem step_argument (ih : LexAll f) (D : Int) (hD : 0 < D) (inp : List Char) (e : Spec.CExpr) (r : List Char)
-    (h : Spec.argument (f + 1) inp = some (e, r)) (hin : Spec.skipS inp = inp) (hnk : nkExpr e = true)
+    (h : Spec.argument (f + 1) inp = some (e, r)) (hin : Spec.skipS inp = inp)
     (hf : AFollow r) : FL D inp (ArgShape e) r := by
   have hD0 : D ≠ 0 := by omega
   rcases argument_inv h with ⟨v, hl, rfl, _⟩ | hlo
   · refine (FL_literal hD0 hin hl hf.toB.toT).mono ?_
     rintro ts ⟨t, rfl, hlt⟩
     exact .lit t v hlt
-  · exact (ih.logicalOr D hD inp e r hlo hin hnk hf.toB).mono (fun ts hts => .expr e ts hts)
+  · exact (ih.logicalOr D hD inp e r hlo hin hf.toB).mono (fun ts hts => .expr e ts hts)
 
 theorem step_moreArgs (ih : LexAll f) (D : Int) (hD : 0 < D) (inp : List Char) (as : List Spec.CExpr)
-    (r : List Char) (h : Spec.moreArgs (f + 1) inp = some (as, r)) (hnk : nkArgs as = true)
+    (r : List Char) (h : Spec.moreArgs (f + 1) inp = some (as, r))
     (hcl : ∃ u, Spec.skipS r = ')' :: u) : FLp D inp (MoreArgsShape as) r := by
   have hD0 : D ≠ 0 := by omega
   rcases moreArgs_inv h with ⟨_, rfl, rfl⟩ | ⟨u, a, r2, as', hu, ha, hm, rfl⟩
   · intro s l toks i br hv
     exact ⟨s, l, [], .refl, hv, .nil⟩
   · obtain ⟨u', hcl'⟩ := hcl
-    have hnk' : nkExpr a = true ∧ nkArgs as' = true := by simpa [nkArgs] using hnk
     have b1 : FLp D inp _ u := FLp_comma hD0 hu
-    have b2 := ((ih.argument D hD (Spec.skipS u) a r2 ha (Cs.skipS_idem u) hnk'.1
+    have b2 := ((ih.argument D hD (Spec.skipS u) a r2 ha (Cs.skipS_idem u)
       (moreArgs_follow hm hcl')).of_skipS).toP
-    have b3 := ih.moreArgs D hD r2 as' r hm hnk'.2 ⟨u', hcl'⟩
+    have b3 := ih.moreArgs D hD r2 as' r hm ⟨u', hcl'⟩
     refine ((b1.seq b2).seq b3).mono ?_
     rintro ts ⟨t12, t3, rfl, ⟨t1, t2, rfl, ⟨v, k, rfl⟩, h2⟩, h3⟩
     exact .cons a as' v k t2 t3 h2 h3
@@ -201,16 +195,15 @@ theorem step_moreArgs (ih : LexAll f) (D : Int) (hD : 0 < D) (inp : List Char) (
 /-! ### parentheses -/
 
 theorem step_parenExpr (ih : LexAll f) (D : Int) (hD : 0 < D) (t : List Char) (e : Spec.CExpr) (r : List Char)
-    (h : Spec.parenExpr (f + 1) ('(' :: t) = some (e, r)) (hnk : nkExpr e = true) :
+    (h : Spec.parenExpr (f + 1) ('(' :: t) = some (e, r)) :
     FL D ('(' :: t) (ParenShape e) r := by
   have hD0 : D ≠ 0 := by omega
   obtain ⟨t', e', r2, et, hlo, hcl, rfl⟩ := parenExpr_inv h
   simp only [List.cons.injEq, true_and] at et
   subst et
-  have hnk' : nkExpr e' = true := by simpa [nkExpr] using hnk
   intro s l toks br hv
   obtain ⟨l1, k, i, r1, hv1⟩ := run_lparen hD0 hv (Cs.skipS_of_head (by decide))
-  have b1 := (ih.logicalOr D hD (Spec.skipS t) e' r2 hlo (Cs.skipS_idem t) hnk'
+  have b1 := (ih.logicalOr D hD (Spec.skipS t) e' r2 hlo (Cs.skipS_idem t)
     (.of_head hcl (by decide))).of_skipS
   obtain ⟨s2, l2, ts, r2', hv2, p⟩ := b1 _ l1 _ _ hv1
   obtain ⟨l3, k3, r3, hv3⟩ := run_rparen hD0 hv2 hcl
@@ -220,74 +213,69 @@ theorem step_parenExpr (ih : LexAll f) (D : Int) (hD : 0 < D) (t : List Char) (e
 /-! ### basic expressions -/
 
 theorem step_basic (ih : LexAll f) (D : Int) (hD : 0 < D) (inp : List Char) (e : Spec.CExpr) (r : List Char)
-    (h : Spec.basic (f + 1) inp = some (e, r)) (hin : Spec.skipS inp = inp) (hnk : nkExpr e = true)
+    (h : Spec.basic (f + 1) inp = some (e, r)) (hin : Spec.skipS inp = inp)
     (hf : BFollow r) : FL D inp (BasicShape e) r := by
   have hD0 : D ≠ 0 := by omega
   cases basic_inv h with
   | notParen t t2 e' e1 hne hsk hp e2 =>
     subst e1 e2
-    have hnk' : nkExpr e' = true := by simpa [nkExpr] using hnk
     have b1 := FL_not hD0 hin hne
-    have b2 := (ih.parenExpr D hD t2 e' r hp hnk').congr_left
+    have b2 := (ih.parenExpr D hD t2 e' r hp).congr_left
       (hsk.trans (Cs.skipS_of_head (c := '(') (by decide)).symm)
     refine (b1.seq b2).mono ?_
     rintro ts ⟨t1, t2', rfl, ⟨v, k, rfl⟩, ⟨e'', ts', v1, k1, v2, k2, rfl, hor, rfl⟩⟩
     exact .notParen e'' ts' v k v1 k1 v2 k2 hor
   | notTerm t e' e1 hne hnp ht hnl e2 =>
     subst e1 e2
-    have hnk' : nkExpr e' = true := by simpa [nkExpr] using hnk
     have b1 := FL_not hD0 hin hne
-    have b2 := (ih.term D hD (Spec.skipS t) e' r ht (Cs.skipS_idem t) hnk' hf.toT).of_skipS
+    have b2 := (ih.term D hD (Spec.skipS t) e' r ht (Cs.skipS_idem t) hf.toT).of_skipS
     refine (b1.seq b2).mono ?_
     rintro ts ⟨t1, t2', rfl, ⟨v, k, rfl⟩, hts⟩
     exact .notTerm e' t2' v k hts (notLit_of hnl)
   | paren t e1 hp =>
     subst e1
-    refine (ih.parenExpr D hD t e r hp hnk).mono ?_
+    refine (ih.parenExpr D hD t e r hp).mono ?_
     rintro ts ⟨e', ts', v1, k1, v2, k2, rfl, hor, rfl⟩
     exact .paren e' ts' v1 k1 v2 k2 hor
   | cmp c t l rhs r1 r2 op e1 hc1 hc2 ht hop ht2 e2 =>
     subst e2
-    have hnk' : nkExpr l = true ∧ nkExpr rhs = true := by simpa [nkExpr] using hnk
-    have b1 := ih.term D hD inp l r1 ht hin hnk'.1 (.of_cmp hop)
+    have b1 := ih.term D hD inp l r1 ht hin (.of_cmp hop)
     have b2 := FL_cop hD0 hop
-    have b3 := (ih.term D hD (Spec.skipS r2) rhs r ht2 (Cs.skipS_idem r2) hnk'.2 hf.toT).of_skipS
+    have b3 := (ih.term D hD (Spec.skipS r2) rhs r ht2 (Cs.skipS_idem r2) hf.toT).of_skipS
     refine ((b1.seq b2).seq b3).mono ?_
     rintro ts ⟨t12, t3, rfl, ⟨t1, t2', rfl, h1, ⟨v, k, rfl⟩⟩, h3⟩
     have := BasicShape.cmp op l rhs t1 t3 v k h1 h3
     simpa using this
   | test c t e1 hc1 hc2 ht hcmp hnl =>
-    exact (ih.term D hD inp e r ht hin hnk hf.toT).mono (fun ts hts => .test e ts hts (notLit_of hnl))
+    exact (ih.term D hD inp e r ht hin hf.toT).mono (fun ts hts => .test e ts hts (notLit_of hnl))
 
 /-! ### conjunctions and disjunctions -/
 
 theorem step_logicalAnd (ih : LexAll f) (D : Int) (hD : 0 < D) (inp : List Char) (e : Spec.CExpr) (r : List Char)
-    (h : Spec.logicalAnd (f + 1) inp = some (e, r)) (hin : Spec.skipS inp = inp) (hnk : nkExpr e = true)
+    (h : Spec.logicalAnd (f + 1) inp = some (e, r)) (hin : Spec.skipS inp = inp)
     (hf : BFollow r) : FL D inp (AndShape e) r := by
   have hD0 : D ≠ 0 := by omega
   obtain ⟨l, r1, hb, hcase⟩ := logicalAnd_inv h
   rcases hcase with ⟨_, rfl, rfl⟩ | ⟨r2, x, hsk, hx, rfl⟩
-  · exact (ih.basic D hD inp e r hb hin hnk hf).mono (fun ts hts => .one e ts hts)
-  · have hnk' : nkExpr l = true ∧ nkExpr x = true := by simpa [nkExpr] using hnk
-    have b1 := ih.basic D hD inp l r1 hb hin hnk'.1 (.of_head hsk (by decide))
+  · exact (ih.basic D hD inp e r hb hin hf).mono (fun ts hts => .one e ts hts)
+  · have b1 := ih.basic D hD inp l r1 hb hin (.of_head hsk (by decide))
     have b2 := FL_and hD0 hsk
-    have b3 := (ih.logicalAnd D hD (Spec.skipS r2) x r hx (Cs.skipS_idem r2) hnk'.2 hf).of_skipS
+    have b3 := (ih.logicalAnd D hD (Spec.skipS r2) x r hx (Cs.skipS_idem r2) hf).of_skipS
     refine ((b1.seq b2).seq b3).mono ?_
     rintro ts ⟨t12, t3, rfl, ⟨t1, t2', rfl, h1, ⟨v, k, rfl⟩⟩, h3⟩
     have := AndShape.and l x t1 t3 v k h1 h3
     simpa using this
 
 theorem step_logicalOr (ih : LexAll f) (D : Int) (hD : 0 < D) (inp : List Char) (e : Spec.CExpr) (r : List Char)
-    (h : Spec.logicalOr (f + 1) inp = some (e, r)) (hin : Spec.skipS inp = inp) (hnk : nkExpr e = true)
+    (h : Spec.logicalOr (f + 1) inp = some (e, r)) (hin : Spec.skipS inp = inp)
     (hf : BFollow r) : FL D inp (OrShape e) r := by
   have hD0 : D ≠ 0 := by omega
   obtain ⟨l, r1, hb, hcase⟩ := logicalOr_inv h
   rcases hcase with ⟨_, rfl, rfl⟩ | ⟨r2, x, hsk, hx, rfl⟩
-  · exact (ih.logicalAnd D hD inp e r hb hin hnk hf).mono (fun ts hts => .one e ts hts)
-  · have hnk' : nkExpr l = true ∧ nkExpr x = true := by simpa [nkExpr] using hnk
-    have b1 := ih.logicalAnd D hD inp l r1 hb hin hnk'.1 (.of_head hsk (by decide))
+  · exact (ih.logicalAnd D hD inp e r hb hin hf).mono (fun ts hts => .one e ts hts)
+  · have b1 := ih.logicalAnd D hD inp l r1 hb hin (.of_head hsk (by decide))
     have b2 := FL_or hD0 hsk
-    have b3 := (ih.logicalOr D hD (Spec.skipS r2) x r hx (Cs.skipS_idem r2) hnk'.2 hf).of_skipS
+    have b3 := (ih.logicalOr D hD (Spec.skipS r2) x r hx (Cs.skipS_idem r2) hf).of_skipS
     refine ((b1.seq b2).seq b3).mono ?_
     rintro ts ⟨t12, t3, rfl, ⟨t1, t2', rfl, h1, ⟨v, k, rfl⟩⟩, h3⟩
     have := OrShape.or l x t1 t3 v k h1 h3
